@@ -194,11 +194,71 @@ def _deliveries(reads):
     return asyncio.run(main())
 
 
+def _burst(npk, seed, read_size=4096, stall=0.05):
+    """a long burst (more packets than any plausible queue bound) with marker-free noise between the packets goes through the real receive
+    path, the real queue and the real consumer task while the receive callback lags (it stalls on the first message): every packet that
+    reaches the decoder core as a message must reach the callback.  Returns (sent, handed to the core, delivered to the callback)"""
+    import nmea2000.ioclient as io_
+    rnd = random.Random(seed)
+    pk = [valid_packet(rnd) for _ in range(npk)]
+    s = b""
+    for p in pk:
+        s += bytes(rnd.choice([0x11, 0x00]) for _ in range(rnd.randrange(0, 3))) + p
+    chunks = [s[i:i + read_size] for i in range(0, len(s), read_size)]
+    nreads = len(chunks)
+
+    async def main():
+        c = io_.WaveShareNmea2000Gateway("p")
+        c._buffer = bytearray()
+
+        class R:
+            async def read(self, n):
+                return chunks.pop(0)
+        c.reader = R()
+        core_n = [0]
+        got = []
+
+        class Msg:
+            def __init__(self, raw):
+                self.raw = raw
+
+        def core(pgn, pr, s_, dd, ts, data, raw, ac=False):
+            core_n[0] += 1
+            return Msg(bytes(raw))
+        c.decoder._decode = core
+
+        async def cb(m):
+            if not got:
+                await asyncio.sleep(stall)
+            got.append(m.raw)
+        c.set_receive_callback(cb)
+        for _ in range(nreads):
+            try:
+                await c._receive_impl()
+            except Exception:
+                break
+        for _ in range(400):
+            if len(got) >= core_n[0] or c._process_queue_task.done():
+                break
+            await asyncio.sleep(0.01)
+        c._process_queue_task.cancel()
+        return core_n[0], got
+    core_n, got = asyncio.run(main())
+    return pk, core_n, got
+
+
 def search(ctx, broken, corr_broken):
     global LAST_SEARCH_CANDIDATES
     harness.load_repo()
     rnd = random.Random(ctx["seed"] + 5)
     n = 0
+    for npk in (1500, 5000):
+        pk, core_n, got = _burst(npk, ctx["seed"] + npk)
+        n += 1
+        if got != pk:
+            return [{"key": f"C20/burst-loss/{npk}", "what": f"a burst of {npk} valid packets (marker-free noise between them) while the receive callback lags: {core_n} reached the decoder core, "
+                     f"{len(got)} reached the callback" + ("" if len(got) != len(pk) else " (in another order or with other bytes)"),
+                     "replay": {"kind": "burst", "packets": npk, "seed": ctx["seed"] + npk}}]
     for trial in range(1500):
         n += 1
         pk = [valid_packet(rnd, 0xaa if rnd.random() < 0.3 else None) for _ in range(rnd.choice([1, 2, 3]))]
@@ -270,6 +330,10 @@ def _v(kind, reads, what, pk=None):
 
 
 def replay(rp):
+    if rp.get("kind") == "burst":
+        harness.load_repo()
+        pk, core_n, got = _burst(rp["packets"], rp["seed"])
+        return got == pk, f"burst of {rp['packets']} packets: {core_n} reached the decoder core, {len(got)} reached the callback"
     harness.load_repo()
     if rp.get("kind") != "serial":
         return False, "not an input replay: " + str(rp.get("broken_theorems") or rp.get("broken_correspondence"))[:500]
